@@ -536,7 +536,15 @@ func (em *emitter) emitAssignmentNode(node *ast.Assignment) {
 
 		case *ast.Index:
 			exprType := em.typ(v.Expr)
-			expr := em.emitIndexedExpr(v.Expr, exprType)
+			var expr int8
+			if _, ok := em.varStore.nonLocalVarIndex(v.Expr); ok {
+				// The array, slice or map is a non-local variable: the
+				// element is set on a copy of the variable and then the
+				// variable is set.
+				expr = em.emitExpr(v.Expr, exprType)
+			} else {
+				expr = em.emitIndexedExpr(v.Expr, exprType)
+			}
 			indexType := intType
 			if exprType.Kind() == reflect.Map {
 				indexType = exprType.Key()
@@ -576,7 +584,14 @@ func (em *emitter) emitAssignmentNode(node *ast.Assignment) {
 				expr = op.Expr
 			}
 			typ := em.typ(expr)
-			reg := em.emitExpr(expr, typ)
+			var reg int8
+			if _, ok := em.varStore.nonLocalVarIndex(expr); ok {
+				// The struct is a non-local variable: the field is set on
+				// a copy of the variable and then the variable is set.
+				reg = em.emitExpr(expr, typ)
+			} else {
+				reg = em.emitIndexedExpr(expr, typ)
+			}
 			if len(node.Lhs) > 1 && typ.Kind() == reflect.Pointer {
 				reg = em.copyOperand(reg, typ)
 			}
